@@ -95,7 +95,7 @@ def evaluate(prop, tier, rules, repo, configs=None, ctx=None):
         ctx.current = cfg
         before = len(rep.instances)
         for rule in rules:
-            if cfg != "default" and getattr(rule, "__name__", "") in ("r_witness", "r_c11", "r_c11_conv"):
+            if cfg != "default" and getattr(rule, "__name__", "") in ("r_witness", "r_c11", "r_c11_conv", "r_date_split", "r_date_variant"):
                 continue
             try:
                 rule(ctx, rep)
